@@ -83,12 +83,44 @@ impl<'a> Tr<'a> {
                 self.for_unrolled(&f.pat, &elems, 0, &f.body, env, k)
             }
             Expr::Match(m) => self.match_k(m, env, hint, k),
+            Expr::Return(r) if self.gen.is_some() => match &r.expr {
+                Some(x) => self.expr_k(x, env, None, &|tr, v| tr.gen_finish(v, e)),
+                None => Err(unsupported(e, "`return;` inside a generator closure")),
+            },
+            Expr::Try(t) if self.gen.is_some() => self.expr_k(&t.expr, env, None, &|tr, v| {
+                let inner = match &v.ty {
+                    Ty::Option(t) => (**t).clone(),
+                    _ => return Err(unsupported(e, &format!("`?` on a value of type {}", v.ty.show()))),
+                };
+                let x = tr.fresh("q");
+                let rest = k(tr, Val { s: x.clone(), ty: inner })?;
+                // the closure returns None: the generator is finished
+                Ok(format!("match {} with\n| Some {} =>\n{}\n| None => Some []\nend", v.s, x, rest))
+            }),
             Expr::Return(r) => {
                 let rt = self.ret_ty.clone();
                 match &r.expr {
                     Some(x) => self.expr_k(x, env, Some(&rt), &|tr, v| tr.finish(v, env)),
                     None => self.finish(unit(), env),
                 }
+            }
+            Expr::Try(t) if matches!(self.ret_ty, Ty::Result(_, _)) => {
+                // `?` on a Result in a function returning Result (the same error type)
+                let rt = self.ret_ty.clone();
+                self.expr_k(&t.expr, env, None, &|tr, v| {
+                    let (okt, errt) = match &v.ty {
+                        Ty::Result(a, b) => ((**a).clone(), (**b).clone()),
+                        _ => return Err(unsupported(e, &format!("`?` on a value of type {} in a function returning Result", v.ty.show()))),
+                    };
+                    if let Ty::Result(_, fe) = &rt {
+                        join(&errt, fe).map_err(|m| unsupported(e, &format!("`?` with a different error type (From conversions are not translated): {}", m)))?;
+                    }
+                    let x = tr.fresh("q");
+                    let er = tr.fresh("er");
+                    let bad = tr.finish(Val { s: format!("(inr {})", er), ty: rt.clone() }, env)?;
+                    let rest = k(tr, Val { s: x.clone(), ty: okt })?;
+                    Ok(format!("match {} with\n| inl {} =>\n{}\n| inr {} => {}\nend", v.s, x, rest, er, bad))
+                })
             }
             Expr::Try(t) => {
                 let rt = self.ret_ty.clone();
@@ -109,6 +141,12 @@ impl<'a> Tr<'a> {
             Expr::Assign(a) => self.assign_k(&a.left, None, &a.right, env, e, k),
             Expr::Binary(b) if is_compound(&b.op) => self.assign_k(&b.left, Some(&b.op), &b.right, env, e, k),
             Expr::Macro(m) if is_skipped_macro(&m.mac) => k(self, unit()),
+            Expr::MethodCall(m) if m.method == "map" && m.args.len() == 1 && matches!(&m.args[0], Expr::Closure(c) if c.inputs.len() == 1) && matches!(self.pure(&m.receiver, env, None).map(|v| v.ty), Ok(Ty::Slice(_))) => self.list_map_k(m, env, e, k),
+            Expr::Call(c) if Self::from_fn_closure(e).is_some() => {
+                let _ = c;
+                self.generator_k(e, env, k)
+            }
+            Expr::MethodCall(m) if m.method == "flatten" && m.args.is_empty() && Self::from_fn_closure(&m.receiver).is_some() => self.generator_k(e, env, k),
             Expr::MethodCall(m) if m.method == "unwrap" && m.args.is_empty() && self.fuel && !matches!(&*m.receiver, Expr::MethodCall(r) if r.method == "try_into") => {
                 // in a fuelled function (result in `option`): `opt.unwrap()` on None leaves the function with None
                 // (None = no value: fuel exhausted, or a panic of `unwrap`)
@@ -494,6 +532,205 @@ impl<'a> Tr<'a> {
             e = ev.s
         );
         Ok(crate::effects::let_pat(&[tmp, r], &m, &rest))
+    }
+
+    /// `list.map(|x| body)` on a list of items (a slice iterator, `str::split`, the value of an `impl Iterator` function): a pure
+    /// closure is List.map; a closure that assigns to captured variables (`move |x| { ..; state += ..; .. }`) is a Fixpoint by
+    /// structural recursion on the list whose other parameters are the variables in scope
+    fn list_map_k(&mut self, m: &ExprMethodCall, env: &Env, at: &Expr, k: K) -> R<String> {
+        let cl = match &m.args[0] {
+            Expr::Closure(c) => c.clone(),
+            _ => unreachable!(),
+        };
+        let lv = self.pure(&m.receiver, env, None)?;
+        let elem = match &lv.ty {
+            Ty::Slice(t) => (**t).clone(),
+            _ => unreachable!(),
+        };
+        let body_stmts: Vec<Stmt> = match &*cl.body {
+            Expr::Block(b) => b.block.stmts.clone(),
+            other => vec![Stmt::Expr(other.clone(), None)],
+        };
+        let eff = self.effects_stmts(&body_stmts);
+        if eff.ret {
+            return Err(unsupported(at, "`map` closure with `return` / `?` / loops / fuelled calls"));
+        }
+        if eff.assigned.contains("<complex place>") {
+            return Err(unsupported(at, "assignment to something that is not a local variable or a field path of one"));
+        }
+        let mut env2 = env.clone();
+        let pat = self.bind_pat(&cl.inputs[0], &elem, &mut env2)?;
+        let captured_writes = eff.assigned.iter().any(|n| env.get(n).is_some());
+        if !captured_writes {
+            let cell: RefCell<Option<Ty>> = RefCell::new(None);
+            let body = self.stmts_k(&body_stmts, &env2, None, &|_tr, v| {
+                *cell.borrow_mut() = Some(v.ty.clone());
+                Ok(v.s)
+            })?;
+            let bt = cell.into_inner().ok_or_else(|| unsupported(at, "`map` closure without a value"))?;
+            return k(self, Val { s: format!("(List.map (fun x_ => let '{} := x_ in\n{}) {})", pat, body, lv.s), ty: Ty::Slice(Box::new(bt)) });
+        }
+        if !self.loops.is_empty() || self.gen.is_some() {
+            return Err(unsupported(at, "a stateful `map` inside a loop or a generator"));
+        }
+        let mut all: Vec<(String, String)> = vec![];
+        for (n, v) in env.vars.iter() {
+            if v.alias.is_some() {
+                continue;
+            }
+            let cur = env.get(n).unwrap();
+            if cur.coq != v.coq || cur.alias.is_some() {
+                continue;
+            }
+            if all.iter().any(|(c, _)| *c == v.coq) {
+                continue;
+            }
+            all.push((v.coq.clone(), self.t.coq_ty(&v.ty)?));
+        }
+        self.loop_counter += 1;
+        let id = format!("{}_map{}", self.fn_coq, self.loop_counter);
+        let names: Vec<String> = all.iter().map(|(c, _)| c.clone()).collect();
+        let rec = format!("({} r_{})", id, names.iter().map(|n| format!(" {}", n)).collect::<String>());
+        let cell: RefCell<Option<Ty>> = RefCell::new(None);
+        // the captured variables are owned by the closure (`move`): inside they may be written whatever their declaration says
+        let mut env3 = env2.clone();
+        for n in eff.assigned.iter() {
+            if let Some(v) = env3.get(n).cloned() {
+                let mut v2 = v.clone();
+                v2.mutable = true;
+                env3.push(n, v2);
+            }
+        }
+        let body = self.stmts_k(&body_stmts, &env3, None, &|_tr, v| {
+            *cell.borrow_mut() = Some(v.ty.clone());
+            Ok(format!("({} :: {})", v.s, rec))
+        })?;
+        let bt = cell.into_inner().ok_or_else(|| unsupported(at, "`map` closure without a value"))?;
+        let mut binders = String::new();
+        for (c, t) in all.iter() {
+            binders.push_str(&format!(" ({} : {})", c, t));
+        }
+        self.aux_defs.push(format!(
+            "Fixpoint {id} (l_ : list {a}){binders} {{struct l_}} : list {b} :=\nmatch l_ with\n| [] => []\n| x_ :: r_ =>\nlet '{pat} := x_ in\n{body}\nend.",
+            id = id, a = self.t.coq_ty(&elem)?, binders = binders, b = self.t.coq_ty(&bt)?, pat = pat, body = body
+        ));
+        k(self, Val { s: format!("({} {}{})", id, lv.s, names.iter().map(|n| format!(" {}", n)).collect::<String>()), ty: Ty::Slice(Box::new(bt)) })
+    }
+
+    /// `core::iter::from_fn(move || body)`: the closure
+    pub fn from_fn_closure(e: &Expr) -> Option<&ExprClosure> {
+        if let Expr::Call(c) = strip_parens(e) {
+            if let Expr::Path(p) = &*c.func {
+                let segs: Vec<String> = p.path.segments.iter().map(|s| s.ident.to_string()).collect();
+                let ok = segs.last().map(|s| s == "from_fn").unwrap_or(false) && (segs.len() == 1 || segs[segs.len() - 2] == "iter");
+                if ok && c.args.len() == 1 {
+                    if let Expr::Closure(cl) = &c.args[0] {
+                        if cl.inputs.is_empty() {
+                            return Some(cl);
+                        }
+                    }
+                }
+            }
+        }
+        None
+    }
+
+    /// the value the closure of a generator returns (an Option): Some v = yield v and go on, None = finished
+    pub fn gen_finish(&mut self, v: Val, at: &Expr) -> R<String> {
+        let (cont, flatten, cell) = match &self.gen {
+            Some(g) => (g.0.clone(), g.1, &g.2),
+            None => return Err(unsupported(at, "not inside a generator")),
+        };
+        let inner = match &v.ty {
+            Ty::Option(t) => (**t).clone(),
+            t => return Err(unsupported(at, &format!("a generator closure returning {} (not Option)", t.show()))),
+        };
+        let item = if flatten {
+            match &inner {
+                Ty::RangeIncl(t) if **t == Ty::Int(Some(IntTy::U32)) => (**t).clone(),
+                Ty::Infer => Ty::Infer,
+                t => return Err(unsupported(at, &format!("`.flatten()` over items of type {} (only RangeInclusive<char>)", t.show()))),
+            }
+        } else {
+            inner
+        };
+        {
+            let mut c = cell.borrow_mut();
+            let nt = match &*c {
+                Some(old) => join(old, &item).map_err(|m| unsupported(at, &m))?,
+                None => item,
+            };
+            *c = Some(nt);
+        }
+        if v.s.trim() == "None" {
+            return Ok("Some []".to_string());
+        }
+        let cons = if flatten { "(Casts.char_range (fst x_) (snd x_) ++ l_)" } else { "(x_ :: l_)" };
+        Ok(format!("match {} with\n| Some x_ =>\n  match {} with\n  | Some l_ => Some {}\n  | None => None\n  end\n| None => Some []\nend", v.s, cont, cons))
+    }
+
+    /// `core::iter::from_fn(move || body)[.flatten()]`: the list of the items the generator yields until its first None, a
+    /// Fixpoint over fuel whose parameters are the variables in scope (the captured mutable locals are rebound in the body)
+    fn generator_k(&mut self, e: &Expr, env: &Env, k: K) -> R<String> {
+        let (cl, flatten) = match strip_parens(e) {
+            Expr::MethodCall(m) => (Self::from_fn_closure(&m.receiver).unwrap().clone(), true),
+            other => (Self::from_fn_closure(other).unwrap().clone(), false),
+        };
+        if !self.loops.is_empty() || self.gen.is_some() {
+            return Err(unsupported(e, "a generator inside a loop or another generator"));
+        }
+        if !self.fuel {
+            self.needs_fuel = true;
+            return Err(unsupported(e, "`from_fn` generator (retry with fuel)"));
+        }
+        let body_stmts: Vec<Stmt> = match &*cl.body {
+            Expr::Block(b) => b.block.stmts.clone(),
+            other => vec![Stmt::Expr(other.clone(), None)],
+        };
+        if self.effects_stmts(&body_stmts).assigned.contains("<complex place>") {
+            return Err(unsupported(e, "assignment to something that is not a local variable or a field path of one"));
+        }
+        let mut all: Vec<(String, String)> = vec![];
+        for (n, v) in env.vars.iter() {
+            if v.alias.is_some() {
+                continue;
+            }
+            let cur = env.get(n).unwrap();
+            if cur.coq != v.coq || cur.alias.is_some() {
+                continue;
+            }
+            if all.iter().any(|(c, _)| *c == v.coq) {
+                continue;
+            }
+            all.push((v.coq.clone(), self.t.coq_ty(&v.ty)?));
+        }
+        self.loop_counter += 1;
+        let id = format!("{}_gen{}", self.fn_coq, self.loop_counter);
+        let f_outer = self.fuel_var.clone();
+        let f_in = self.fresh("fuel");
+        let names: Vec<String> = all.iter().map(|(c, _)| c.clone()).collect();
+        let cont = if names.is_empty() { format!("({} {})", id, f_in) } else { format!("({} {} {})", id, f_in, names.join(" ")) };
+        self.fuel_var = f_in.clone();
+        self.gen = Some((cont, flatten, RefCell::new(None)));
+        // the captured variables are written by the closure: they are mutable inside it whatever their declaration says
+        let res = self.stmts_k(&body_stmts, env, None, &|tr, v| tr.gen_finish(v, e));
+        let frame = self.gen.take();
+        self.fuel_var = f_outer.clone();
+        let inner = res?;
+        let item = frame.and_then(|g| g.2.into_inner()).ok_or_else(|| unsupported(e, "a generator that never yields"))?;
+        let it = self.t.coq_ty(&item)?;
+        let mut binders = String::new();
+        for (c, t) in all.iter() {
+            binders.push_str(&format!(" ({} : {})", c, t));
+        }
+        let f0 = format!("{}_", f_in);
+        self.aux_defs.push(format!(
+            "Fixpoint {id} ({f0} : nat){binders} {{struct {f0}}} : option (list {it}) :=\nmatch {f0} with\n| O => None\n| Datatypes.S {f_in} =>\n{inner}\nend.",
+            id = id, f0 = f0, binders = binders, it = it, f_in = f_in, inner = inner
+        ));
+        let g = self.fresh("gen");
+        let rest = k(self, Val { s: g.clone(), ty: Ty::Slice(Box::new(item)) })?;
+        Ok(format!("match ({} {}{}) with\n| Some {} =>\n{}\n| None => None\nend", id, f_outer, names.iter().map(|n| format!(" {}", n)).collect::<String>(), g, rest))
     }
 
     /// `arr[a..b].copy_from_slice(&src);` on a local array (N-tuple) with literal bounds and an array `src` of b - a elements
